@@ -701,7 +701,8 @@ def reachdist(CIJ, ensure_binary=True):
         CIJ = binarize(CIJ)
 
     R = CIJ.copy()
-    D = CIJ.copy()
+    # distances are stored as floats (np.inf marks unreachable pairs) whatever the dtype of the input
+    D = np.array(CIJ, dtype=float)
     powr = 2
     n = len(CIJ)
     CIJpwr = CIJ.copy()
